@@ -582,11 +582,12 @@ Error BaseBuilder::run_passes() {
     return Error::kOk;
   }
 
-  ErrorHandler* prev = error_handler();
+  // Swap the handler directly - set_error_handler() would mark the (possibly inherited) handler as the emitter's own.
+  ErrorHandler* prev = _error_handler;
   PostponedErrorHandler postponed;
 
   Error err = Error::kOk;
-  set_error_handler(&postponed);
+  _error_handler = &postponed;
 
   for (Pass* pass : _passes) {
     _pass_arena.reset();
@@ -596,7 +597,7 @@ Error BaseBuilder::run_passes() {
     }
   }
   _pass_arena.reset();
-  set_error_handler(prev);
+  _error_handler = prev;
 
   if (ASMJIT_UNLIKELY(err != Error::kOk)) {
     return report_error(err, !postponed._message.is_empty() ? postponed._message.data() : nullptr);
